@@ -58,9 +58,12 @@ def is_valid_llvm(toks):
     return True
 
 
-def gen(tier, rng, harness=None):
+def gen(tier, rng, harness=None, driver=None):
     lines = []
     n = 800 if tier == "quick" else 40000
+    # M-Core-3: numbering on real function bodies (written, nameless and wrong IDs) through the proved translation and the real parser
+    from . import pC01
+    lines += pC01.core3_parse_stream(rng, driver, 60 if tier == "quick" else 3000)
     for _ in range(n):
         toks = gen_func(rng, wrong_p=rng.choice([0, 0, 0.2]))
         s = " ".join(toks)
